@@ -65,7 +65,11 @@ def build(hist):
             chain, how, ref, nm = names
             ruler = md.inline.ruler2 if chain == "inline2" else md[chain].ruler
             fn = {"core": (lambda s: None), "inline2": (lambda s: None), "block": (lambda s, a, b, silent: False), "inline": (lambda s, silent: False)}[chain]
-            if how == "push" and chain != "block":
+            if how == "at":
+                # a plug-in wraps a built-in rule (same function, same alt): that must not switch the rule on or off
+                rule = next(r for r in ruler.__rules__ if r.name == ref)
+                ruler.at(ref, rule.fn, {"alt": list(rule.alt)})
+            elif how == "push" and chain != "block":
                 ruler.push(nm, fn)
             else:
                 getattr(ruler, how if how != "push" else "before")(ref, nm, fn)
@@ -361,8 +365,8 @@ def rand_hist(rng, preset=None):
             chain = rng.choice(["block", "inline", "inline", "inline2", "core"])
             ref = rng.choice({"block": ["table", "fence", "list", "paragraph", "heading", "blockquote", "hr"], "inline": ["emphasis", "link", "image", "autolink", "backticks", "text", "strikethrough", "entity"],
                               "inline2": ["emphasis", "balance_pairs", "strikethrough"], "core": ["inline", "block", "text_join", "replacements"]}[chain])
-            how = rng.choice(["before", "after", "before"])
-            if ref == "paragraph":
+            how = rng.choice(["before", "after", "before", "at", "at"])
+            if ref == "paragraph" and how == "after":
                 how = "before"
             hist["steps"].insert(rng.randint(0, len(hist["steps"])), ["plugin", [chain, how, ref, f"plug{len(hist['steps'])}"]])
     if rng.random() < 0.3:
